@@ -30,6 +30,8 @@ run c01-callback-params-reversed tool/src/c/ty.rs 's/\.map(|p| self.gen_ty_name(
 run c03-callback-destructor-twice runtime/src/callback.rs 's/(destructor)(self.data);/(destructor)(self.data); (destructor)(self.data);/' C03
 run c02-cpp-callback-never-deleted tool/templates/cpp/runtime.hpp.jinja 's/        delete reinterpret_cast<const function_t \*>(cb);/        (void)cb;/' C02
 run c02-cpp-callback-string-arg-short tool/templates/cpp/runtime.hpp.jinja 's/return std::string_view{val.data, val.len};/return std::string_view{val.data, val.len > 2 ? val.len - 1 : val.len};/' C02
+run c04-nanobind-keepalive-off-by-one tool/src/nanobind/ty.rs 's/                                i + 1 + self_number$/                                i + self_number/' C04
+run c04-kotlin-opaque-return-drops-edges tool/templates/kotlin/OpaqueReturn.kt.jinja 's/{{param}}{%- endfor %}/listOf(){%- endfor %}/' C04
 # reverts of repairs made to /repo: the check that found the defect must fire again
 revert() { # commit checks...
   c="$1"; shift; name="revert-$c"; if [ -n "$FILTER" ] && [[ "$name" != *$FILTER* ]]; then return; fi
@@ -43,4 +45,4 @@ revert a3cad26 C01
 revert 9a81775 C09
 revert b081f38 C05
 revert a9c6d26 C05
-
+revert dea9526 C04
